@@ -380,9 +380,9 @@ func (s *Sym) evalSlice(v *ssa.Slice) *Term {
 	if v.Low == nil && v.High == nil && v.Max == nil {
 		// x[:] of an array pointer / whole value
 		if _, isPtr := v.X.Type().Underlying().(*types.Pointer); isPtr {
-			if x.Op == "alloc" {
+			if al, isAl := v.X.(*ssa.Alloc); isAl && x.Op == "alloc" {
 				// content of the local array
-				return s.loadAlloc(v.X.(*ssa.Alloc), v)
+				return s.loadAlloc(al, v)
 			}
 		}
 		return x
@@ -391,7 +391,9 @@ func (s *Sym) evalSlice(v *ssa.Slice) *Term {
 		lo = T("const", "0")
 	}
 	if _, isPtr := v.X.Type().Underlying().(*types.Pointer); isPtr && x.Op == "alloc" {
-		x = s.loadAlloc(v.X.(*ssa.Alloc), v)
+		if al, isAl := v.X.(*ssa.Alloc); isAl {
+			x = s.loadAlloc(al, v)
+		}
 	}
 	return T("slice", "", x, lo, hi)
 }
